@@ -1090,7 +1090,7 @@ def k_poly2d_pickle(sub, case, msg) -> bool:
 def build(chk: Check) -> None:
     chk.sub("roundtrip", o_roundtrip, strategy=s_roundtrip(gcp=False), n={"quick": 4000, "thorough": 600000}, budget_s={"quick": 40, "thorough": 180})
     chk.sub("roundtrip_gcp", o_roundtrip, strategy=s_roundtrip(gcp=True), n={"quick": 1200, "thorough": 150000}, budget_s={"quick": 30, "thorough": 90})
-    chk.sub("history", o_history, strategy=s_history(gcp=False), n={"quick": 2400, "thorough": 500000}, budget_s={"quick": 50, "thorough": 240})
+    chk.sub("history", o_history, cov={"quick": 300, "thorough": 30000}, strategy=s_history(gcp=False), n={"quick": 2400, "thorough": 500000}, budget_s={"quick": 50, "thorough": 240})
     chk.sub("history_gcp", o_history, strategy=s_history(gcp=True), n={"quick": 700, "thorough": 150000}, budget_s={"quick": 30, "thorough": 120})
     chk.sub("reproject", o_reproject, strategy=s_reproject(), n={"quick": 360, "thorough": 60000}, budget_s={"quick": 50, "thorough": 200}, shrink=False)
     chk.known("C09-PIXFALLBACK", k_pixel_axis_fallback)
